@@ -20,8 +20,12 @@ SAN     := -O1 -fsanitize=address,undefined -fno-sanitize-recover=undefined -fsa
 WORLD   := world
 endif
 ifeq ($(FLAVOUR),tsan)
+# real parallel threads under ThreadSanitizer; library instrumented for the lock-contract monitor too
 SAN     := -O1 -fsanitize=thread
 WORLD   := world_free
+LIBEXTRA := -finstrument-functions
+HEXTRA  := -DVF_FNHOOK -DVF_CONTRACTS_INC='"$(B)/contracts.inc"'
+LDEXTRA := -rdynamic -ldl
 endif
 ifeq ($(FLAVOUR),plain)
 # uninstrumented, for Valgrind Memcheck (valgrind 3.19 cannot read clang's DWARF 5)
@@ -33,7 +37,8 @@ ifeq ($(FLAVOUR),asanfn)
 SAN     := -O1 -fsanitize=address,undefined -fno-sanitize-recover=undefined
 LIBEXTRA := -finstrument-functions
 WORLD   := world
-HEXTRA  := -DVF_FNHOOK
+HEXTRA  := -DVF_FNHOOK -DVF_CONTRACTS_INC='"$(B)/contracts.inc"'
+LDEXTRA := -rdynamic -ldl
 endif
 
 LIBSRC  := $(wildcard $(REPO)/src/*/*.c)
@@ -61,6 +66,12 @@ $(B)/lib/%.o: %.c $(LIBHDR) world/redirect.map | $(B)/lib
 $(B)/h/world.o: world/$(WORLD).c world/world.h | $(B)/h
 	$(CC) -std=gnu11 $(COMMON) $(SAN) -Wall -c $< -o $@
 
+$(B)/contracts.inc: bin/gen_contracts.py $(LIBHDR) | $(B)/h
+	python3 bin/gen_contracts.py $(REPO) $@ >/dev/null
+
+$(B)/h/contracts.o: harness/contracts.cpp $(HHDR) $(if $(findstring VF_FNHOOK,$(HEXTRA)),$(B)/contracts.inc) | $(B)/h
+	$(CXX) $(CXXFLAGS) -c $< -o $@
+
 $(B)/h/%.o: harness/%.cpp $(HHDR) | $(B)/h
 	$(CXX) $(CXXFLAGS) -c $< -o $@
 
@@ -69,7 +80,7 @@ $(B)/h/%.o: props/%.cpp $(HHDR) | $(B)/h
 
 # rapidcheck driver binary (fork-per-case) + replay
 $(B)/vfprop: $(LIBOBJ) $(HOBJ) $(B)/h/world.o
-	$(CXX) $(COMMON) $(SAN) -o $@ $(HOBJ) $(B)/h/world.o $(LIBOBJ) -lrapidcheck $(LIBS)
+	$(CXX) $(COMMON) $(SAN) -o $@ $(HOBJ) $(B)/h/world.o $(LIBOBJ) -lrapidcheck $(LIBS) $(LDEXTRA)
 
 # libFuzzer binary: same objects, entry from fuzz/fuzz_main.cpp
 $(B)/vffuzz: $(LIBOBJ) $(filter-out $(B)/h/main_rc.o,$(HOBJ)) $(B)/h/world.o fuzz/fuzz_main.cpp
